@@ -425,6 +425,7 @@ fn cmd_check(a: &[String]) -> i32 {
                 let _ = std::fs::create_dir_all(&work);
                 let st = std::process::Command::new(exe)
                     .env("SIM_ALLOC_PAD", pad)
+                    .env("SIM_NO_MINIMISE", "1")
                     .args(["batch", &prop, &tier, &seed.to_string(), &nw.to_string(), &n.to_string()])
                     .arg(&wd)
                     .arg(&replay_dir)
@@ -688,6 +689,7 @@ fn cmd_selftest(a: &[String]) -> i32 {
                 let _ = std::fs::create_dir_all(&work);
                 let st = std::process::Command::new(&exe)
                     .env("SIM_ALLOC_PAD", pad)
+                    .env("SIM_NO_MINIMISE", "1")
                     .args(["batch", prop, "quick", &seed.to_string(), &nw.to_string(), &n.to_string()])
                     .arg(&wd)
                     .arg(work.join("replays"))
